@@ -1249,7 +1249,26 @@ class _FoldText(ast.NodeTransformer):
         return node
 
 
-def tables_back(tree, ref_globals):
+def new_module_literals(tree, ref_globals):
+    """{name: Assign} for module-level `NAME = <small literal>` that the reference module does not have and nothing
+    else stores to"""
+    consts = {}
+    if ref_globals is None:
+        return consts
+    for st in tree.body:
+        if isinstance(st, ast.Assign) and len(st.targets) == 1 and isinstance(st.targets[0], ast.Name) and st.targets[0].id not in ref_globals \
+                and _literal_const(st.value):
+            consts[st.targets[0].id] = st
+    for n in ast.walk(tree):
+        if isinstance(n, ast.Name) and isinstance(n.ctx, (ast.Store, ast.Del)) and n.id in consts and consts[n.id].targets[0] is not n:
+            consts.pop(n.id)
+        elif isinstance(n, ast.Global):
+            for nm in n.names:
+                consts.pop(nm, None)
+    return consts
+
+
+def tables_back(tree, ref_globals, imported=None, ref_shapes=None):
     """Undo "table instead of code", for module-level literals the reference module does not have:
       * `if K in T: S(T[K])` with T a new dict literal  ->  `if K == k1: S(v1) elif K == k2: S(v2) ...` (the statement's
         own else / elif chain continues after the last entry)
@@ -1261,19 +1280,16 @@ def tables_back(tree, ref_globals):
     notes = []
     if ref_globals is None or os.environ.get('VERIF_NO_INLINE'):
         return notes
-    consts = {}
+    consts = new_module_literals(tree, ref_globals)
+    # new literals of other modules that this one imports by name
     for st in tree.body:
-        if isinstance(st, ast.Assign) and len(st.targets) == 1 and isinstance(st.targets[0], ast.Name) and st.targets[0].id not in ref_globals \
-                and _literal_const(st.value):
-            consts[st.targets[0].id] = st
-    # a name stored to anywhere else is not a constant
-    for n in ast.walk(tree):
-        if isinstance(n, ast.Name) and isinstance(n.ctx, (ast.Store, ast.Del)) and n.id in consts and consts[n.id].targets[0] is not n:
-            consts.pop(n.id)
-        elif isinstance(n, ast.Global):
-            for nm in n.names:
-                consts.pop(nm, None)
-    if not consts:
+        if isinstance(st, ast.ImportFrom) and st.module is not None or isinstance(st, ast.ImportFrom):
+            base = (st.module or '').split('.')[-1]
+            for al in st.names:
+                src_ = (imported or {}).get(base, {})
+                if al.name in src_ and (al.asname or al.name) not in ref_globals:
+                    consts[al.asname or al.name] = src_[al.name]
+    if not consts and ref_shapes is None:
         return notes
 
     class _Sub(ast.NodeTransformer):
@@ -1331,8 +1347,11 @@ def tables_back(tree, ref_globals):
                             it = st.iter
                             if isinstance(it, ast.Name) and it.id in consts:
                                 it = consts[it.id].value
+                            # (a literal in place counts when the reference function has no loop over that literal)
+                            in_ref = it is st.iter and (ref_shapes is None or any(
+                                x.startswith('For ') and ast.unparse(it) in x for x in (ref_shapes.get(qual) or {}).get('skel', ['For ' + ast.unparse(it)])))
                             if isinstance(it, (ast.Tuple, ast.List)) and 1 <= len(it.elts) <= 4 and all(isinstance(e, ast.Constant) for e in it.elts) \
-                                    and (it is not st.iter) \
+                                    and not in_ref \
                                     and not any(isinstance(y, (ast.Break, ast.Continue)) for x in st.body for y in ast.walk(x)) \
                                     and not any(isinstance(y, ast.Name) and y.id == st.target.id and isinstance(y.ctx, ast.Store) for x in st.body for y in ast.walk(x)):
                                 new = []
@@ -1366,7 +1385,76 @@ def tables_back(tree, ref_globals):
     return notes
 
 
-def canonicalise(module_name, tree):
+def properties_back(trees):
+    """Repo-level step, before the modules are canonicalised one by one: a new `@property` (a method of a class of
+    module M that M's reference does not have) whose body is one `return <expression>` is read through wherever it is
+    used, in every module: `<receiver>.name` becomes the expression with `self` standing for the receiver (a name or an
+    attribute chain).  The property's name must not be stored to anywhere.  trees: {module: ast}.  Returns notes."""
+    import copy
+    notes = []
+    if os.environ.get('VERIF_NO_INLINE'):
+        return notes
+    props = {}
+    for m, tree in trees.items():
+        known = ref().get(m)
+        if known is None:
+            continue
+        for st in tree.body:
+            if not isinstance(st, ast.ClassDef):
+                continue
+            for s2 in st.body:
+                if isinstance(s2, ast.FunctionDef) and (st.name + '.' + s2.name) not in known and len(s2.decorator_list) == 1 \
+                        and isinstance(s2.decorator_list[0], ast.Name) and s2.decorator_list[0].id == 'property' \
+                        and len(s2.args.args) == 1 and s2.args.args[0].arg == 'self':
+                    body = [x for x in s2.body if not (isinstance(x, ast.Expr) and isinstance(x.value, ast.Constant) and isinstance(x.value.value, str))]
+                    if len(body) == 1 and isinstance(body[0], ast.Return) and body[0].value is not None and \
+                            not any(isinstance(y, (ast.Yield, ast.YieldFrom, ast.Await, ast.NamedExpr, ast.Lambda)) for y in ast.walk(body[0].value)):
+                        props[s2.name] = (m, st, s2, body[0].value)
+    if not props:
+        return notes
+    for tree in trees.values():
+        for n in ast.walk(tree):
+            if isinstance(n, ast.Attribute) and isinstance(n.ctx, (ast.Store, ast.Del)) and n.attr in props:
+                props.pop(n.attr)
+    used = {}
+
+    class _Self(ast.NodeTransformer):
+        def __init__(self, recv):
+            self.recv = recv
+
+        def visit_Name(self, node):
+            if node.id == 'self' and isinstance(node.ctx, ast.Load):
+                return ast.copy_location(copy.deepcopy(self.recv), node)
+            return node
+
+    def simple(e):
+        return isinstance(e, ast.Name) or (isinstance(e, ast.Attribute) and simple(e.value))
+
+    class _Use(ast.NodeTransformer):
+        def visit_Attribute(self, node):
+            self.generic_visit(node)
+            if node.attr in props and isinstance(node.ctx, ast.Load) and simple(node.value):
+                m, cls, fn, expr = props[node.attr]
+                if any(node is y for y in ast.walk(fn)):
+                    return node
+                used[node.attr] = used.get(node.attr, 0) + 1
+                return ast.copy_location(_Self(node.value).visit(copy.deepcopy(expr)), node)
+            return node
+    for m, tree in trees.items():
+        _Use().visit(tree)
+    for name, (m, cls, fn, expr) in props.items():
+        if used.get(name):
+            still = any(isinstance(n, ast.Attribute) and n.attr == name and not any(n is y for y in ast.walk(fn)) for t in trees.values() for n in ast.walk(t))
+            if not still:
+                cls.body.remove(fn)
+            notes.append('%s: new property %s.%s read through at %d place(s)' % (m, cls.name, name, used[name]))
+    if notes:
+        for t in trees.values():
+            ast.fix_missing_locations(t)
+    return notes
+
+
+def canonicalise(module_name, tree, imported=None):
     """rename locals back to the reference names where only names changed, then substitute back temporaries that the
     reference tree does not have; returns list of notes"""
     notes = []
@@ -1380,7 +1468,7 @@ def canonicalise(module_name, tree):
             tree, {q for q in r if '.' not in q}, {q for q in r if '.' in q},
             {q: v.get('defs', []) for q, v in sh.items()}, top_functions)]
     if r:
-        notes += ['%s: %s' % (module_name, x) for x in tables_back(tree, (shapes().get(module_name, {}).get('__module__') or {}).get('globals'))]
+        notes += ['%s: %s' % (module_name, x) for x in tables_back(tree, (shapes().get(module_name, {}).get('__module__') or {}).get('globals'), imported, shapes().get(module_name, {}))]
     mg = module_globals_of(tree)
     for qual, f in top_functions(tree):
         want = r.get(qual)
